@@ -30,25 +30,26 @@ fits the table and is admissible: data page v1, PLAIN / PLAIN_DICTIONARY / RLE_D
 plan, unknown fields really unknown; the Thrift integers fit; file < 2 GiB).  `fileClaimed` (decidable,
 Impl/ReaderClaim.lean) adds what CARQUET bounds: nesting depth of unknown fields (THRIFT_MAX_NESTING = 32
 counted from the top-level struct), list lengths (10000 schema elements / columns, 100000 row groups, 100
-encodings / path elements), no BOOLEAN dictionary (NOT_IMPLEMENTED), levels within int16, no EMPTY data
-page (finding F63: `carquet_column_read_batch` ends a call at a page without values; such files are read
-short), and — fread mode only — every page header lies within the largest window `read_page_header_fread`
-tries, 2^24 bytes.  (That the growing window never accepts a header cut short is a THEOREM since fix F62:
+encodings / path elements), no BOOLEAN dictionary (NOT_IMPLEMENTED), levels within int16, and — fread mode
+only — every page header lies within the largest window `read_page_header_fread` tries, 2^24 bytes.  (Data
+pages WITHOUT values — at the head, in the middle, at the end of a chunk, several in a row — are inside the
+claim since repair F63: `C06_regression_F63`.)  (That the growing window never accepts a header cut short is a THEOREM since fix F62:
 `parsePageHeaderC_mono`, Proofs/ImplReadsPrefix.lean — carquet's page-header parser is prefix-monotone; before the
 fix it was false, `C06_regression_F62`.)  `LibsDecode L oracle`: zlib and
 libzstd (parameters of the model, in the trusted base) inflate the GZIP members / ZSTD frames of the file.
 
 FREE in the theorem: the table (any schema tree, flat or nested to any depth the levels allow, all eight
 physical types, any number of row groups incl. none and empty ones), page split, run plans of the level
-AND index streams (any mix of RLE and bit-packed runs, zero-length runs, over-long headers, padded final
-group), index width ≤ 32, dictionary order / duplicates / unused entries, `dictionary_page_offset` present
+(pages without values included) AND index streams (any mix of RLE and bit-packed runs, zero-length runs,
+over-long headers, padded final group), index width ≤ 32, dictionary order / duplicates / unused entries, `dictionary_page_offset` present
 or absent (fix F52s), PLAIN pages before / after dictionary-encoded ones, SNAPPY op lists, LZ4 / LZ4_RAW
 sequence lists, GZIP stored blocks, ZSTD raw / RLE blocks, CRC per page (verified or not), page and chunk
 statistics, Thrift header form of footer and every page header, unknown fields of every wire type at all
 ten places, gaps, version, created_by; the I/O mode (fread / mmap / buffer) and `verify_checksums`.
 
 Delivered in CLASSES (each a theorem with the class as a decidable hypothesis on the layout), then the
-union; the negative half `C06_unsupported_rejected`; the defect found on the way, `C06_regression_F62`.
+union; the negative half `C06_unsupported_rejected`; the defects found on the way, `C06_regression_F62`
+and `C06_regression_F63`.
 -/
 namespace Carquet.Properties.C06
 open Carquet.Spec Carquet.Spec.File Carquet.Spec.Thrift
@@ -234,9 +235,13 @@ behaviour:
 1. DATA_PAGE_V2: once `load_next_page` has found a page header of type 3, it returns NOT_IMPLEMENTED
    (`finishDataPage`; `C06_v2_page_rejected` below is the same from the bytes of the file);
 2. a value encoding outside {PLAIN = 0, PLAIN_DICTIONARY = 2, RLE_DICTIONARY = 8} in the data page header:
-   the load returns an error (INVALID_ENCODING from `carquet_read_data_page_v1`, or an earlier one);
+   the load returns an error (INVALID_ENCODING from `carquet_read_data_page_v1`, or an earlier one) — or, since
+   repair F63, the header says `num_values = 0` and the page is stepped over undecoded: it is loaded as a
+   page without levels and without values;
 3. a codec tag outside {0, 1, 2, 5, 6, 7} in the column metadata: every data-page load of the chunk returns
-   an error (UNSUPPORTED_CODEC from `decompress_page`, or an earlier one) — hence `load_next_page` does;
+   an error (UNSUPPORTED_CODEC from `decompress_page`, or an earlier one) or (F63) steps over a page without
+   values (`NothingDecoded`) — hence every page the column reader ever gets of such a chunk is `none` or a page
+   without rows: no level and no value of the chunk is decoded;
 4. a dictionary page for a BOOLEAN column: `load_dictionary_page_*` returns an error whatever the page holds
    (NOT_IMPLEMENTED, fix F54, or an earlier one), hence so does the first `load_next_page` of a chunk that
    announces a dictionary;
@@ -250,8 +255,10 @@ theorem C06_unsupported_rejected (fx : Fixes) (L : Libs) (verify : Bool) (mode :
     (∀ hr : ThriftParquetReq.PageHdr × Nat, hr.1.type = 3 →
       (finishDataPage fx L verify mode b c st hr).result = .error .notImplemented) ∧
     (∀ hr : ThriftParquetReq.PageHdr × Nat, encodingKnown hr.1.word4 = false →
-      ∃ e, (finishDataPage fx L verify mode b c st hr).result = .error e) ∧
-    (codecKnown c.cm.codec = false → ∃ e, (loadPage fx L verify mode b c st).result = .error e) ∧
+      (∃ e, (finishDataPage fx L verify mode b c st hr).result = .error e) ∨
+        (hr.1.word0 = 0 ∧ ∃ p, (finishDataPage fx L verify mode b c st hr).result = .ok p ∧ p.page = ⟨[], [], []⟩)) ∧
+    (codecKnown c.cm.codec = false → NothingDecoded (loadPage fx L verify mode b c st).result ∧
+      ∀ fuel, ∀ x ∈ chunkPages fx L verify mode b c fuel st, x = none ∨ x = some ⟨[], [], []⟩) ∧
     (c.ptype = 0 → (∀ off, ∃ e, (loadDictionary fx L verify mode b c off).result = .error e) ∧
       (∀ doff, c.cm.dictionaryPageOffset = some doff → st.dict = none →
         ∃ e, (loadPage fx L verify mode b c st).result = .error e)) ∧
@@ -259,7 +266,7 @@ theorem C06_unsupported_rejected (fx : Fixes) (L : Libs) (verify : Bool) (mode :
       chunkPages fx L verify mode b c (fuel + 1) st = [none]) :=
   ⟨fun hr h3 => finishDataPage_v2 fx L verify mode b c st hr h3,
    fun hr he => finishDataPage_encoding fx L verify mode b c st hr he,
-   fun hc => loadPage_of_finish_error fx L verify mode b c st (fun st' hr => finishDataPage_codec fx L verify mode b c st' hr hc),
+   fun hc => ⟨loadPage_codec fx L verify mode b c st hc, fun fuel => chunkPages_codec fx L verify mode b c hc fuel st⟩,
    fun hb => ⟨fun off => loadDictionary_boolean fx L verify mode b c off hb,
               fun doff hd hn => loadPage_boolean_dictionary fx L verify mode b c st hb doff hd hn⟩,
    fun e fuel hrem h => chunkPages_of_load_error fx L verify mode b c st fuel hrem e h⟩
@@ -393,12 +400,69 @@ example (L : Libs) : readAll Fixes.all L true .fread (write Ex2.table Ex2.layout
 example (L : Libs) : readAll Fixes.all L true .buffer (write Ex2.table Ex2.layoutSnappy) = .ok (readerTableOfSpec Ex2.table) :=
   C06_impl_reads_codec_class Ex2.table Ex2.layoutSnappy (by decide +kernel) (by decide +kernel) .buffer (by decide +kernel) true L
 
-/-- the claim is sharp where it says "no empty data page" (finding F63): the layout of the same table with an
-empty page in the middle is admissible for the Spec reader and outside `fileClaimed` -/
-example : selfConsistencyHyp Ex2.table { rowGroups := [[{ pages := [{ Ex2.pPlain with count := 3, defRuns := [.rle 1 1, .rle 1 0, .rle 1 1] },
-      { count := 0 }, Ex2.pPlain] }]] } = true ∧
-    fileClaimed false Ex2.table { rowGroups := [[{ pages := [{ Ex2.pPlain with count := 3, defRuns := [.rle 1 1, .rle 1 0, .rle 1 1] },
-      { count := 0 }, Ex2.pPlain] }]] } = false := by
-  decide +kernel
+/-! ## the defect found on the way: F63 (empty data pages) -/
+
+namespace F63
+/-- the table of `Ex2` (one OPTIONAL INT32 column, entries 7, null, 9, 7) in data pages of 3, 0 and 1 entries -/
+def p3 : PageLayout := { Ex2.pPlain with count := 3, defRuns := [.rle 1 1, .rle 1 0, .rle 1 1] }
+def layout : Layout := { rowGroups := [[{ pages := [p3, { count := 0 }, Ex2.pPlain] }]] }
+def file : Bytes := write Ex2.table layout
+/-- the column reader `carquet_reader_get_column(reader, 0, 0)` creates on that file (the chunk's metadata as the
+footer records them: INT32, UNCOMPRESSED, 4 values, first page at offset 4; max_def_level 1) -/
+def col : Col := ⟨{ type := 1, codec := 0, numValues := 4, dataPageOffset := 4 }, 1, 0, 1, 0⟩
+/-- empty pages at the head, two in a row in the middle, at the end; PLAIN and dictionary-encoded pages -/
+def layoutMany : Layout :=
+  { rowGroups := [[{
+      dict := some { values := Ex2.dict, offsetPresent := false, sorted := some false },
+      pages := [{ count := 0 }, Ex2.pDict, { count := 0, crc := true }, { count := 0 }, Ex2.pPlain, { count := 0 }] }]] }
+end F63
+
+/-- **F63** (found by `c06impl`; fix `fixes/F63-empty-data-page-read-short.patch`).  A data page whose header
+says `num_values = 0` is legal Parquet.  The witness is the reference writer's file for four entries in pages of
+3, 0 and 1 entries: admissible for the Spec reader, inside every limit of `fileClaimed` (and outside the conjunct
+`pagesNonEmpty` the claim carried until the repair).  The page loaders decode it to the pages `[3 rows, no rows,
+1 row]` (evaluated on the bytes of the file, mapped and fread path).  Before the repair
+`carquet_read_next_page` loaded the empty page, copied nothing, and `carquet_column_read_batch` left its loop at
+`values_read == 0`: the read of all 4 entries returned 3; read 3 at a time, the second call returned 0 with
+`has_next` true and one entry outstanding — a caller that takes 0 for the end of the chunk loses the rest.  The
+repaired loop steps over the page: 4 entries, then 3 + 1; and the whole file is read back
+(`C06_impl_reads_reference`, whose hypothesis `fileClaimed` no longer excludes empty pages). -/
+theorem C06_regression_F63 :
+    (selfConsistencyHyp Ex2.table F63.layout = true ∧ fileClaimed true Ex2.table F63.layout = true ∧
+      (F63.layout.rowGroups.all (fun g => g.all pagesNonEmpty)) = false) ∧
+    ((chunkOf Fixes.all exLibs false .mmap F63.file F63.col).pages =
+        [some ⟨[1, 0, 1], [0, 0, 0], [[7, 0, 0, 0], [9, 0, 0, 0]]⟩, some ⟨[], [], []⟩, some ⟨[1], [0], [[7, 0, 0, 0]]⟩] ∧
+     (chunkOf Fixes.all exLibs true .fread F63.file F63.col).pages =
+        [some ⟨[1, 0, 1], [0, 0, 0], [[7, 0, 0, 0], [9, 0, 0, 0]]⟩, some ⟨[], [], []⟩, some ⟨[1], [0], [[7, 0, 0, 0]]⟩]) ∧
+    -- before the repair
+    ((ColumnReader.readBatch ColumnReader.Fixes.preF63
+        (ColumnReader.getColumn (chunkOf Fixes.all exLibs false .mmap F63.file F63.col)) 4 true false).2.count = 3 ∧
+     (ColumnReader.readBatch ColumnReader.Fixes.preF63
+        (ColumnReader.readBatch ColumnReader.Fixes.preF63
+          (ColumnReader.getColumn (chunkOf Fixes.all exLibs false .mmap F63.file F63.col)) 3 true false).1 3 true false).2.count = 0 ∧
+     ColumnReader.hasNext (ColumnReader.readBatch ColumnReader.Fixes.preF63
+        (ColumnReader.readBatch ColumnReader.Fixes.preF63
+          (ColumnReader.getColumn (chunkOf Fixes.all exLibs false .mmap F63.file F63.col)) 3 true false).1 3 true false).1 = true) ∧
+    -- after it
+    ((ColumnReader.readBatch ColumnReader.Fixes.all
+        (ColumnReader.getColumn (chunkOf Fixes.all exLibs false .mmap F63.file F63.col)) 4 true false).2.count = 4 ∧
+     (ColumnReader.readBatch ColumnReader.Fixes.all
+        (ColumnReader.readBatch ColumnReader.Fixes.all
+          (ColumnReader.getColumn (chunkOf Fixes.all exLibs false .mmap F63.file F63.col)) 3 true false).1 3 true false).2.count = 1 ∧
+     ∀ (mode : Mode) (verify : Bool) (L : Libs),
+       readAll Fixes.all L verify mode F63.file = .ok (readerTableOfSpec Ex2.table)) := by
+  refine ⟨by decide +kernel, by decide +kernel, by decide +kernel, by decide +kernel, by decide +kernel, ?_⟩
+  intro mode verify L
+  have hc : fileClaimed (decide (mode = .fread)) Ex2.table F63.layout = true :=
+    fileClaimed_any_mode (by decide +kernel) mode
+  exact C06_impl_reads_plain_class Ex2.table F63.layout (by decide +kernel) (by decide +kernel) mode hc verify L
+
+/-- empty pages everywhere — at the head of the chunk (behind the dictionary page), two in a row in the middle
+(one with a CRC), at the end — between an RLE_DICTIONARY page and a PLAIN page: inside the theorem, any libraries,
+every mode -/
+example (L : Libs) (mode : Mode) (verify : Bool) :
+    readAll Fixes.all L verify mode (write Ex2.table F63.layoutMany) = .ok (readerTableOfSpec Ex2.table) :=
+  C06_impl_reads_dictionary_class Ex2.table F63.layoutMany (by decide +kernel) (by decide +kernel) mode
+    (fileClaimed_any_mode (by decide +kernel) mode) verify L
 
 end Carquet.Properties.C06
